@@ -29,10 +29,10 @@ def kw_cases():
 
 
 R, C = 'length(s1)', 'length(s2)'
-P1B = '(0 if kwargs["psi"] is None else (kwargs["psi"][0] if type(kwargs["psi"]) is tuple else kwargs["psi"]))'
-P2B = '(0 if kwargs["psi"] is None else (kwargs["psi"][2] if type(kwargs["psi"]) is tuple else kwargs["psi"]))'
-P1E = '(0 if kwargs["psi"] is None else (kwargs["psi"][1] if type(kwargs["psi"]) is tuple else kwargs["psi"]))'
-P2E = '(0 if kwargs["psi"] is None else (kwargs["psi"][3] if type(kwargs["psi"]) is tuple else kwargs["psi"]))'
+P1B = '(0 if kwargs["psi"] is None else (kwargs["psi"][0] if type(kwargs["psi"]) in (tuple, list) else kwargs["psi"]))'
+P2B = '(0 if kwargs["psi"] is None else (kwargs["psi"][2] if type(kwargs["psi"]) in (tuple, list) else kwargs["psi"]))'
+P1E = '(0 if kwargs["psi"] is None else (kwargs["psi"][1] if type(kwargs["psi"]) in (tuple, list) else kwargs["psi"]))'
+P2E = '(0 if kwargs["psi"] is None else (kwargs["psi"][3] if type(kwargs["psi"]) in (tuple, list) else kwargs["psi"]))'
 METRIC = '(0 if kwargs["inner_dist"] == "squared euclidean" else 1)'
 CTX = 'DTWctx(s1, s2, kwargs["window"], kwargs["penalty"], kwargs["max_step"], %s, %s, %s, NdimOf(s1))' % (P1B, P2B, METRIC)
 
@@ -206,6 +206,9 @@ _wp.hints['vc_mic = vc[mic]'] = _wp.hints['vc_mic = vc[mic]'] + [
     'implies(not keep_int_repr and %s == 0 and psi_1e != 0, vr_mir == vsqrt(%s))' % (METRIC, _PC)]
 for _k in ('d = vr_mir', 'd = vc_mic'):
     _wp.hints[_k] = ['implies(not keep_int_repr and %s == 0 and psi_2e != 0, vc_mic == vsqrt(%s))' % (METRIC, _WR)]
+_wp.kwdefaults = {'inner_dist': 'squared euclidean'}      # DTWSettings' default, for call sites that omit the key
+_wp.returns = ('tuple', 'val', 'matrix')
+_wp.ensures = list(_wp.ensures) + ['result[1].shape == (%s + 1, %s + 1)' % (R, C)]
 _wp.props = ('C04', 'C13')
 _CT['dtw.warping_paths#endpsi'] = _wp
 
